@@ -21,6 +21,11 @@ CHECKS = {
          'All 2048 automation subsets x small configurations x every sequence of available operations (incl. any player order and mucks): exactly one phase active per state, each logged operation follows the documented phase relation, no available operation or constructor raises, the explored state graph is acyclic with its longest path under a structural bound, no deadlock.',
          'Admissible configurations only. Phase of a state is read through the default-argument can_* queries. Known defects (known_findings.json) prune the branch they occur on; counts are in the evidence.',
          'DESIGN.md section 4 C07'),
+ 'C03': ('model_checking',
+         'explicit-state BFS over the real State in product with an independent betting-rules automaton (lock-step conformance on every transition); every candidate amount enumerated at every decision',
+         'Every reachable betting state of stack-vector grids (all vectors of {2..6}^3, thorough {1..8}^3; 4-player boundary vectors; straddles, posts, antes, caps, cash/tournament, both warning modes, FL/PL/NL, stud bring-in, draw) is compared with an independently written rules automaton: actor, fold/check-call/bring-in availability and amounts, and acceptance of every raise-to amount 0..max+2 and None, with must-accept / must-refuse / undetermined verdicts.',
+         'Two undetermined bands are not judged (counted in the evidence). Stud openers are taken from the engine here (C13 decides them). Stacks are small integers.',
+         'DESIGN.md section 4 C03, Appendix A.1'),
 }
 
 def main():
